@@ -25,6 +25,7 @@ pub mod c16;
 pub mod c17;
 pub mod c18;
 pub mod common;
+pub mod p12checks;
 pub mod smoke;
 
 pub fn run(ctx: &Ctx) -> Option<Report> {
